@@ -309,7 +309,7 @@ def build_collection(case):
     members = []
     for m in case["members"]:
         mc = dict(MEMBER_VARIANTS[m])
-        mc.update(klass="Histogram1D", axes=[case["axis"]])
+        mc.update(klass=mc.get("klass", "Histogram1D"), axes=[case["axis"]])
         members.append(build_hist(mc))
     ckw = dict(COLL_META[case.get("cmeta", "none")])
     if not members:
@@ -326,6 +326,9 @@ MEMBER_VARIANTS = {
     "i16_err": {"dtype": "int16", "content": "plain", "errors": "custom", "meta": "names"},
     "zero_f16": {"dtype": "float16", "content": "zero", "meta": "none"},
     "f128": {"dtype": "float128", "content": "plain", "meta": "none"},
+    # coordinate-transformed 1D members: the member's class must survive too
+    "radial_f64": {"dtype": "float64", "content": "plain", "meta": "none", "klass": "RadialHistogram"},
+    "azimuthal_i64": {"dtype": "int64", "content": "plain", "missed": "values", "meta": "names", "klass": "AzimuthalHistogram"},
 }
 COLL_META = {
     "none": {},
@@ -969,7 +972,7 @@ def units(tier, seed):
         for t in _chunks(ts, 2):
             gt.append({"kind": "hist", "klass": klass, "axes_list": t, "profile": "nd", "dtypes": DTYPES})
     # collections
-    variants = list(MEMBER_VARIANTS) if thorough else list(MEMBER_VARIANTS)[:6]
+    variants = list(MEMBER_VARIANTS) if thorough else list(MEMBER_VARIANTS)[:4] + ["radial_f64", "azimuthal_i64"]
     for a in AXNAMES:
         gc.append({"kind": "coll", "axis": a, "variants": variants, "max_members": 3})
     # cheap and diverse units first, then the groups interleaved: a run that hits its time budget
